@@ -33,7 +33,7 @@ class Spec(CheckSpec):
         for i in range(n):
             seed = base_seed * 1000003 + 110000000 + i
             prof = {"masking": 1.0, "obs": False, "n_green": (0, 1), "n_red": (0, 1), "durations": [1, 2, 3], "action_map_size": (30, 80), "blue_first": 0.7, "app_lifecycle_cluster": 0.7}
-            yield {"seed": seed, "profile": prof, "n_ops": 45, "monitors": ["c11"], "op_mix": {"step": 0.75, "reset": 0.04, "fault": 0.21}}
+            yield {"seed": seed, "profile": prof, "n_ops": 45, "monitors": ["c11"], "op_mix": {"step": 0.75, "reset": 0.04, "fault": 0.21}, "extra_faults": ["FS_cycle", "FS_cycle"] if i % 2 else []}
 
 
 if __name__ == "__main__":
